@@ -379,7 +379,7 @@ class Runner:
                     r2 = self.run_one(s, tdir, playback=True, cap=max(s["cap"], 120) * 2, suffix=".playback")
                     r["playback"] = r2.get("playback", [])
                     r["playback_status"] = r2["status"]
-                elif want_playback_for_covers and r["verdict"] == "SUCCESSFUL" and r["covers"] and r["wall_s"] < 60:
+                elif want_playback_for_covers and r["verdict"] == "SUCCESSFUL" and r["covers"] and r["wall_s"] < 60 and s.get("cover_playback", True):
                     # optional: concrete inputs for the cover witnesses, replayed natively afterwards. Bounded
                     # tightly - kani-driver can take minutes to post-process the traces of a 40 s harness.
                     r2 = self.run_one(s, tdir, playback=True, cap=min(180, 4 * r["wall_s"] + 60), suffix=".playback")
